@@ -143,7 +143,7 @@ mod verif_c04 {
         finish_case(4);
     }
 
-    // @harness id=C04 tier=quick timeout=1800 mem=7 checks=rust
+    // @harness id=C04 tier=deep timeout=3400 mem=28 checks=rust
     // @bounds dropping an UNFINISHED bar state whose on_finish behaviour is finish = that finish exactly once (limiter refusing); pos/len over u64
     #[kani::proof]
     #[kani::unwind(6)]
@@ -152,7 +152,7 @@ mod verif_c04 {
         drop_case(0, false);
     }
 
-    // @harness id=C04 tier=thorough timeout=1800 mem=7 checks=rust
+    // @harness id=C04 tier=deep timeout=3400 mem=28 checks=rust
     // @bounds dropping an UNFINISHED bar state whose on_finish behaviour is finish_with_message = that finish exactly once (limiter refusing); pos/len over u64
     #[kani::proof]
     #[kani::unwind(6)]
@@ -161,7 +161,7 @@ mod verif_c04 {
         drop_case(1, false);
     }
 
-    // @harness id=C04 tier=quick timeout=1800 mem=7 checks=rust
+    // @harness id=C04 tier=deep timeout=3400 mem=28 checks=rust
     // @bounds dropping an UNFINISHED bar state whose on_finish behaviour is finish_and_clear = that finish exactly once (limiter refusing); pos/len over u64
     #[kani::proof]
     #[kani::unwind(6)]
@@ -170,7 +170,7 @@ mod verif_c04 {
         drop_case(2, false);
     }
 
-    // @harness id=C04 tier=thorough timeout=1800 mem=7 checks=rust
+    // @harness id=C04 tier=deep timeout=3400 mem=28 checks=rust
     // @bounds dropping an UNFINISHED bar state whose on_finish behaviour is abandon = that finish exactly once (limiter refusing); pos/len over u64
     #[kani::proof]
     #[kani::unwind(6)]
@@ -179,7 +179,7 @@ mod verif_c04 {
         drop_case(3, false);
     }
 
-    // @harness id=C04 tier=quick timeout=1800 mem=7 checks=rust
+    // @harness id=C04 tier=deep timeout=3400 mem=28 checks=rust
     // @bounds dropping an UNFINISHED bar state whose on_finish behaviour is abandon_with_message = that finish exactly once (limiter refusing); pos/len over u64
     #[kani::proof]
     #[kani::unwind(6)]
@@ -188,7 +188,7 @@ mod verif_c04 {
         drop_case(4, false);
     }
 
-    // @harness id=C04 tier=quick timeout=1800 mem=7 checks=rust
+    // @harness id=C04 tier=deep timeout=3400 mem=28 checks=rust
     // @bounds dropping an already FINISHED bar state (on_finish = finish): nothing is drawn
     #[kani::proof]
     #[kani::unwind(6)]
@@ -197,7 +197,7 @@ mod verif_c04 {
         drop_case(0, true);
     }
 
-    // @harness id=C04 tier=quick timeout=1800 mem=7 checks=rust
+    // @harness id=C04 tier=deep timeout=3400 mem=28 checks=rust
     // @bounds dropping a bar that was finished-and-cleared explicitly although its on_finish behaviour is finish_with_message: nothing is drawn (the cleared bar does not come back)
     #[kani::proof]
     #[kani::unwind(6)]
